@@ -475,6 +475,9 @@ def frame_obligations(ex, fr, con, heap0, alloc0, loc):
     for key in sorted(ex.heap.keys()):
         m_end = ex.heap[key]
         m0 = heap0.get(key)
+        if m0 is None:
+            # the map was first touched after the entry snapshot was taken: its entry value is the initial map constant
+            m0 = ex.__dict__.get("_init_maps", {}).get(key)
         if m0 is None or m0.eq(m_end):
             continue
         field, sk = key
